@@ -624,6 +624,55 @@ def apply_nested_annotations(blk, k, cbody, name, MARK):
     return apply_edits(cbody, edits)
 
 
+
+BLOCKLIKE = ("if", "for", "while", "loop", "match", "unsafe", "{")
+
+
+def tail_start(it):
+    """offset (in the text `it` was tokenized from) where the tail expression of a block starts, or None if the block
+    ends with a statement.  Statements: `...;`, or a block-like expression statement (if/for/while/loop/match/unsafe/{})."""
+    pos, n = 0, len(it)
+    last_start = None
+    while pos < n:
+        start = pos
+        t = it[pos]
+        if t.text in BLOCKLIKE and not (t.text == "{" and False):
+            j = pos
+            while True:
+                # advance to the block of this construct
+                while j < n and it[j].text != "{":
+                    if it[j].text in ("(", "["):
+                        j = match_close(it, j)
+                    j += 1
+                if j >= n:
+                    return it[start].start
+                j = match_close(it, j)
+                if j + 1 < n and it[j + 1].text == "else":
+                    j += 2
+                    continue
+                break
+            nxt = it[j + 1].text if j + 1 < n else None
+            if nxt is None:
+                return it[start].start          # block-like construct is the tail
+            if nxt == ";":
+                pos = j + 2
+                continue
+            if nxt in (".", "?", "as", "+", "-", "*", "/", "==", "&&", "||"):
+                pass                             # part of a larger expression: fall through to the `;` scan
+            else:
+                pos = j + 1
+                continue
+        j = pos
+        while j < n and it[j].text != ";":
+            if it[j].text in rtok.OPEN:
+                j = match_close(it, j)
+            j += 1
+        if j >= n:
+            return it[start].start
+        pos = j + 1
+    return None
+
+
 # ----------------------------------------------------------------------------- template processing
 class Clause:
     def __init__(self):
@@ -959,22 +1008,11 @@ def emit_fn(unit, blk, rel):
     first = MARK.format("at body first") if "at body first" in blk.sections else ""
     if "at body last" in blk.sections:
         it = tokenize(inner)
-        # find start of tail expression: after last ';' or '}' of a statement at depth 0 -- conservative: last ';' at depth 0
-        depth = 0
-        last_semi = None
-        j = 0
-        while j < len(it):
-            if it[j].text in rtok.OPEN:
-                j = match_close(it, j)
-            elif it[j].text == ";":
-                last_semi = j
-            j += 1
+        cut = tail_start(it)
         has_ret = "->" in blk.sig
-        if last_semi is not None and last_semi == len(it) - 1 or not has_ret:
+        if cut is None or not has_ret:
             inner = inner + MARK.format("at body last")
         else:
-            cut = it[last_semi].end if last_semi is not None else 0
-            # the tail may start with declarations inserted above (let mut __clo..) – they end with ';' so are before cut
             inner = inner[:cut] + " let __ret = " + inner[cut:].rstrip() + ";" + MARK.format("at body last") + " __ret"
     final = "{" + first + inner + "}"
     # --- emit
